@@ -21,6 +21,7 @@ import numpy as np
 from ..common import sx, parse_sx, atom_to_num
 from .. import futil
 from ..futil import funsor, Tensor, Bint, ops, SEMIRINGS, table, exact, same_num
+from ..futil import Variable, Real
 
 from funsor.sum_product import (partial_sum_product, sum_product, modified_partial_sum_product,
                                 dynamic_partial_sum_product)
@@ -57,6 +58,10 @@ class Graph:
         # ("number",) = funsor Number (no inputs); ("lazy",) = a lazily built Binary of two Tensors;
         # ("dup", j) = the very same funsor object as factor j, listed again (its table in `lin` is factor j's)
         self.kinds = list(kinds) if kinds else [None] * len(self.factors)
+        # ("real", base) = Tensor(base) (x) Variable('w', Real): a factor depending on a FREE REAL PARAMETER; `lin`
+        # holds the table with w already substituted (= what the oracle sees), `wval` the value substituted
+        # into funsor's (lazy) result afterwards
+        self.wval = None
 
     def names(self):
         out = []
@@ -92,6 +97,13 @@ class Graph:
             return Constant(OrderedDict((n, Bint[self.sizes[n]]) for n in cs), inner)
         if kind[0] == "number":
             return Number(float(arr.reshape(-1)[0]))
+        if kind[0] == "real":
+            _, prod_op, _, skind = SEMIRINGS[self.sr]
+            base = np.array(kind[1], dtype=np.float64).reshape(arr.shape)
+            if skind == "log":
+                with np.errstate(divide="ignore"):
+                    base = np.log(base)
+            return prod_op(Tensor(base, OrderedDict((n, Bint[self.sizes[n]]) for n in f)), Variable("w", Real))
         if kind[0] == "lazy":
             _, prod_op, _, _ = SEMIRINGS[self.sr]
             unit = Tensor(np.full(arr.shape[:1], float(ops.UNITS[prod_op])),
@@ -109,6 +121,8 @@ class Graph:
                  data=[np.asarray(d, dtype=np.float64).reshape(-1).tolist() for d in self.lin])
         if any(k is not None for k in self.kinds):
             d["kinds"] = [list(k) if k is not None else None for k in self.kinds]
+        if self.wval is not None:
+            d["wval"] = self.wval
         return d
 
 
@@ -432,6 +446,48 @@ def decorated_cases(rng, g, plates, elim):
     return out
 
 
+REAL_W = {  # semiring -> [(value passed for w, what it does to a linear-carrier entry)]
+    "add-mul": [(2.0, lambda x: x * 2), (3.0, lambda x: x * 3)],
+    "max-mul": [(2.0, lambda x: x * 2), (3.0, lambda x: x * 3)],
+    "min-mul": [(2.0, lambda x: x * 2), (3.0, lambda x: x * 3)],
+    "max-add": [(1.0, lambda x: x + 1), (-2.0, lambda x: x - 2)],
+    "min-add": [(1.0, lambda x: x + 1), (-2.0, lambda x: x - 2)],
+    "logaddexp-add": [(float(np.log(2.0)), lambda x: x * 2), (float(np.log(0.5)), lambda x: x * 0.5)],
+}
+
+
+def real_param_cases(rng, g, plates, elim):
+    """1-2 factors become Tensor (x) Variable('w', Real) (the semiring's product), inside and outside plates;
+    every entry point; funsor's lazy result is evaluated at 2 values of w and compared with the oracle on the
+    ground tensors obtained by substituting w BEFORE."""
+    if not g.factors:
+        return []
+    idx = rng.sample(range(len(g.factors)), min(len(g.factors), rng.choice([1, 1, 2])))
+    variants = rng.sample(["psp", "sp", "split", "mod", "dyn"], 2)
+    out = []
+    for wv, fn in REAL_W[g.sr]:
+        lin, kinds = [], []
+        for i, d in enumerate(g.lin):
+            arr = np.asarray(d, dtype=np.float64)
+            if i in idx:
+                kinds.append(("real", arr.reshape(-1).tolist()))
+                lin.append(fn(arr))
+            else:
+                kinds.append(None)
+                lin.append(arr)
+        gw = Graph(g.factors, g.sizes, lin, g.sr, kinds)
+        gw.wval = wv
+        for v in variants:
+            if v == "split":
+                if not elim:
+                    continue
+                e1, e2 = gen_split(rng, gw.factors, elim, plates)
+                out.append(Case(gw, plates, elim, "split", e1=e1, e2=e2, decor=True))
+            else:
+                out.append(Case(gw, plates, elim, v, decor=True))
+    return out
+
+
 def gen_elim(rng, names):
     r = rng.random()
     if r < 0.45:
@@ -525,6 +581,8 @@ def product_table(g, rs, free):
     or None if some result is lazy.  KeyError/ValueError if a result has an input outside `free`."""
     _, prod_op, _, kind = SEMIRINGS[g.sr]
     r = _reduce(prod_op, rs, Number(ops.UNITS[prod_op]))
+    if g.wval is not None and "w" in r.inputs:
+        r = r(w=Tensor(np.array(g.wval, dtype=np.float64)))   # evaluate the lazy result at the real parameter
     if not isinstance(r, (Tensor, Number, Constant)):
         r = reinterpret(r)          # a lazy result: evaluate it (still lazy -> a decline)
     names = [n for n, _ in free]
@@ -634,6 +692,7 @@ def case_from_doc(d):
     lin = [np.array(x, dtype=np.float64).reshape(tuple(sizes[n] for n in f)) for f, x in zip(factors, d["data"])]
     kinds = [tuple(k) if k is not None else None for k in d["kinds"]] if d.get("kinds") else None
     g = Graph(factors, sizes, lin, d["sr"], kinds)
+    g.wval = d.get("wval")
     kw = {k: d[k] for k in ("e1", "e2", "output", "scales", "expect_value", "decor") if k in d}
     return Case(g, d["plates"], d["elim"], d["variant"], **kw)
 
@@ -1077,13 +1136,19 @@ def clean_cases(ctx, volume=1):
                 ctx.count("plate-structures-3:creates-new-ordinal")
             yield variants_for(rng, g, plates3, elim, full=False)
             # plate scales (all / some / none of the eliminated plates) through sum_product / psp / a split
-            if rng.random() < (0.3 if not thorough else 0.6):
+            if rng.random() < (0.25 if not thorough else 0.6):
                 cs = scaled_cases(rng, g, plates3, elim, n=1)
                 if cs:
                     ctx.count("stratum:plate-scales")
                     yield cs
+            # factors depending on a free real parameter w, evaluated at two values after the sum-product
+            if rng.random() < (0.07 if not thorough else 0.2):
+                cs = real_param_cases(rng, g, plates3, elim)
+                if cs:
+                    ctx.count("stratum:real-parameter")
+                    yield cs
             # other factor kinds (Constant over some of the plates, Number, lazy) on the same shape
-            if rng.random() < (0.22 if not thorough else 0.5):
+            if rng.random() < (0.18 if not thorough else 0.5):
                 srd = rng.choice(["add-mul", "add-mul", "logaddexp-add", "logaddexp-add", "max-add", "min-mul"])
                 gd = make_graph(rng, [tuple(f) for f in shape], sizes, srd)
                 cs = decorated_cases(rng, gd, plates3, elim)
@@ -1108,8 +1173,9 @@ def clean_cases(ctx, volume=1):
 def correspond(ctx):
     ctx.rule = ("(0) EVERY plate structure: all multisets of <= 3 factors (thorough: plus a seed-rotated third of the 33,963 four-factor shapes; quick samples 350 with 4) over "
                 "3 variables and 3 plates up to renaming (3038 / 37001 shapes), full elimination (+ a random eliminate set), "
-                "sizes fitted under the unrolling cap, six semirings in rotation; on 22% (thorough 50%) of these shapes also a copy "
-                "with other FACTOR KINDS of identical meaning: funsor.Constant over 1-3 of a factor's plates, Number, lazy "
+                "sizes fitted under the unrolling cap, six semirings in rotation; "
+                "on 7% (thorough 20%) a copy where 1-2 factors are Tensor (x) Variable(w, Real), the lazy result evaluated at two "
+                "values of w against the oracle with w substituted before; on 18% a copy with other FACTOR KINDS of identical meaning: funsor.Constant over 1-3 of a factor's plates, Number, lazy "
                 "Binary, and the SAME funsor object listed 2-3 times (duplicate factors) (psp + sum_product / plate-at-a-time and random two-call splits); "
                 "(1) every multiset of <= 3 factors over 3 variables and 2 plates up to renaming (1018 shapes), sizes 1-2, "
                 "with full elimination + 2 random eliminate sets (quick) / every eliminate set (thorough), random "
